@@ -9,9 +9,10 @@
    every run).
 
    Heap abstraction.  An address is a token (0 = NULL); pointer arithmetic is
-   (block address, offset).  A block records who allocated it (owner), whether it
-   was freed, whether the library has handed it to the caller as a result, and
-   the KNOWN PREFIX of its contents: [b_data] is the reversed list of the first
+   (block address, offset).  The block AT an address is the most recent block
+   allocated there.  A block records who allocated it (owner), whether it was
+   freed, whether the library has handed it to the caller as a result, and the
+   KNOWN PREFIX of its contents: [b_data] is the reversed list of the first
    [b_known] bytes, everything behind is junk.  A write at offset [off] keeps the
    known bytes below [off] and forgets the rest; memcpy of n bytes copies the
    known prefix.  malloc may hand out the address of a freed block again when the
@@ -40,16 +41,15 @@ Inductive bad :=
 | BadOverrun (id off : Z)   (* write at an offset outside the live block at that address *)
 | BadOverRead (id n : Z).   (* memcpy source range exceeds the block *)
 
-Inductive cbad := CBadFree | CBadPass | CBadSize | CBadIndex.   (* misuse by the caller *)
-Inductive hazard := HzRecycled | HzZeroReuse.
+(* things outside the contract: misuse by the caller, and the two hazards *)
+Inductive note := NCallerFree | NCallerPass | NCallerSize | NCallerIndex | NRecycled | NZeroReuse.
 Inductive status := StOk | StBufSize | StAbort | StFuel.
 
 Inductive logent :=
 | LMalloc (id size : Z) (o : owner)
 | LFree (id : Z) (by_ : owner)
 | LBad (b : bad)
-| LCBad (c : cbad)
-| LHaz (z : hazard)
+| LNote (n : note)
 | LResult (st : status) (ptr_id size : Z) (data : list Z).
 
 Record heap := mkH {
@@ -62,21 +62,24 @@ Record heap := mkH {
 Definition heap0 : heap := mkH [] 1 1 0 [].
 
 Definition addr_is (a : Z) (b : block) : bool := b_addr b =? a.
-Definition live_at (a : Z) (b : block) : bool := (b_addr b =? a) && negb (b_freed b).
 Definition blk (h : heap) (a : Z) : option block := find (addr_is a) (h_blocks h).
-Definition live (h : heap) (a : Z) : option block := find (live_at a) (h_blocks h).
+Definition live (h : heap) (a : Z) : option block :=
+  match blk h a with
+  | Some b => if b_freed b then None else Some b
+  | None => None
+  end.
 Definition id_at (h : heap) (a : Z) : Z := match blk h a with Some b => b_id b | None => 0 end.
 
-Fixpoint upd_live (a : Z) (f : block -> block) (bs : list block) : list block :=
+Fixpoint upd_addr (a : Z) (f : block -> block) (bs : list block) : list block :=
   match bs with
   | [] => []
-  | b :: t => if live_at a b then f b :: t else b :: upd_live a f t
+  | b :: t => if addr_is a b then f b :: t else b :: upd_addr a f t
   end.
 
 Definition h_logadd (e : logent) (h : heap) : heap :=
   mkH (h_blocks h) (h_fresh h) (h_nextid h) (h_lastfreed h) (e :: h_log h).
 Definition h_upd (a : Z) (f : block -> block) (h : heap) : heap :=
-  mkH (upd_live a f (h_blocks h)) (h_fresh h) (h_nextid h) (h_lastfreed h) (h_log h).
+  mkH (upd_addr a f (h_blocks h)) (h_fresh h) (h_nextid h) (h_lastfreed h) (h_log h).
 Definition h_set_lastfreed (a : Z) (h : heap) : heap :=
   mkH (h_blocks h) (h_fresh h) (h_nextid h) a (h_log h).
 
@@ -95,9 +98,8 @@ Definition h_malloc (h : heap) (sz : Z) (o : owner) (recycle : bool) : heap * Z 
   let rc := recycle && can_recycle h in
   let a := if rc then h_lastfreed h else h_fresh h in
   let b := mkB (h_nextid h) a sz o false false 0 [] in
-  let lg := if rc then LHaz HzRecycled :: LMalloc (h_nextid h) sz o :: h_log h
-            else LMalloc (h_nextid h) sz o :: h_log h in
-  (mkH (b :: h_blocks h) (if rc then h_fresh h else h_fresh h + 1) (h_nextid h + 1) (h_lastfreed h) lg, a).
+  (mkH (b :: h_blocks h) (if rc then h_fresh h else h_fresh h + 1) (h_nextid h + 1) (h_lastfreed h)
+       (LMalloc (h_nextid h) sz o :: h_log h), a).
 
 (* free() called by the library; [cur] = the pointer the caller passed to the current call *)
 Definition h_free_lib (h : heap) (a cur : Z) : heap :=
@@ -112,17 +114,19 @@ Definition h_free_lib (h : heap) (a cur : Z) : heap :=
       end
   end.
 
-(* free() called by the application *)
+(* free() called by the application (validity is judged by [caller_may_free]) *)
 Definition h_free_caller (h : heap) (a : Z) : heap :=
   if a =? 0 then h else
   match live h a with
-  | None => h_logadd (LCBad CBadFree) h
-  | Some b =>
-      let h1 := h_logadd (LFree (b_id b) Caller) (h_set_lastfreed a (h_upd a set_freed h)) in
-      match b_owner b with
-      | Caller => h1
-      | Lib => if b_handed b then h1 else h_logadd (LCBad CBadFree) h1
-      end
+  | None => h
+  | Some b => h_logadd (LFree (b_id b) Caller) (h_set_lastfreed a (h_upd a set_freed h))
+  end.
+
+Definition caller_may_free (h : heap) (a : Z) : bool :=
+  (a =? 0) ||
+  match live h a with
+  | None => false
+  | Some b => match b_owner b with Caller => true | Lib => b_handed b end
   end.
 
 (* ---- contents *)
@@ -147,7 +151,7 @@ Definition h_write (h : heap) (a off x : Z) : heap :=
 Definition h_write_list (h : heap) (a off : Z) (xs : list Z) : heap :=
   match xs with
   | [] => h
-  | _ =>
+  | _ :: _ =>
     match live h a with
     | Some b => if (0 <=? off) && (off + Z.of_nat (length xs) <=? b_size b) then h_upd a (putn off xs) h
                 else h_logadd (LBad (BadOverrun (b_id b) (Z.max off (b_size b)))) h
@@ -177,23 +181,28 @@ Record world := mkW {
   w_buf : Z; w_size : Z;      (* the caller's *jpegBuf and *jpegSize *)
   w_held : list Z;            (* other pointers the caller remembers *)
   w_reusable : bool;          (* w_buf is the result of the previous, successful call and untouched since *)
-  w_cur : Z }.                (* ghost: pointer passed in by the caller to the current call *)
+  w_cur : Z;                  (* ghost: pointer passed in by the caller to the current call *)
+  w_ok : bool }.              (* no caller misuse and no hazard so far *)
 
-Definition world0 : world := mkW heap0 None 0 0 [] false 0.
+Definition world0 : world := mkW heap0 None 0 0 [] false 0 true.
 
 Definition set_heap (h : heap) (w : world) : world :=
-  mkW h (w_dest w) (w_buf w) (w_size w) (w_held w) (w_reusable w) (w_cur w).
+  mkW h (w_dest w) (w_buf w) (w_size w) (w_held w) (w_reusable w) (w_cur w) (w_ok w).
 Definition set_dest (d : dest) (w : world) : world :=
-  mkW (w_heap w) (Some d) (w_buf w) (w_size w) (w_held w) (w_reusable w) (w_cur w).
+  mkW (w_heap w) (Some d) (w_buf w) (w_size w) (w_held w) (w_reusable w) (w_cur w) (w_ok w).
 Definition set_out (p s : Z) (w : world) : world :=
-  mkW (w_heap w) (w_dest w) p s (w_held w) (w_reusable w) (w_cur w).
+  mkW (w_heap w) (w_dest w) p s (w_held w) (w_reusable w) (w_cur w) (w_ok w).
 Definition set_held (l : list Z) (w : world) : world :=
-  mkW (w_heap w) (w_dest w) (w_buf w) (w_size w) l (w_reusable w) (w_cur w).
+  mkW (w_heap w) (w_dest w) (w_buf w) (w_size w) l (w_reusable w) (w_cur w) (w_ok w).
 Definition set_reusable (r : bool) (w : world) : world :=
-  mkW (w_heap w) (w_dest w) (w_buf w) (w_size w) (w_held w) r (w_cur w).
+  mkW (w_heap w) (w_dest w) (w_buf w) (w_size w) (w_held w) r (w_cur w) (w_ok w).
 Definition set_cur (c : Z) (w : world) : world :=
-  mkW (w_heap w) (w_dest w) (w_buf w) (w_size w) (w_held w) (w_reusable w) c.
+  mkW (w_heap w) (w_dest w) (w_buf w) (w_size w) (w_held w) (w_reusable w) c (w_ok w).
 Definition wlog (e : logent) (w : world) : world := set_heap (h_logadd e (w_heap w)) w.
+(* record something outside the contract *)
+Definition flag (n : note) (w : world) : world :=
+  mkW (h_logadd (LNote n) (w_heap w)) (w_dest w) (w_buf w) (w_size w) (w_held w) (w_reusable w) (w_cur w) false.
+Definition flag_if (c : bool) (n : note) (w : world) : world := if c then flag n w else w.
 
 Inductive mgr := TJ | IJG.
 Record cfg := mkCfg { cf_mgr : mgr; cf_clr : bool (* the `else dest->newbuffer = NULL` rule is present *) }.
@@ -266,10 +275,13 @@ Definition term_destination (w : world) (d : dest) : world :=
 (* ---- the producer *)
 Inductive pop := PByte (x : Z) | PChunk (xs : list Z) | PAbort.
 
-(* jcmarker.c emit_byte: * (next_output_byte)++ = val; if (--free_in_buffer == 0) empty_output_buffer *)
+(* size_t subtraction *)
+Definition sub_size_t (a b : Z) : Z := if b <=? a then a - b else a - b + SIZE_T_MOD.
+
+(* jcmarker.c emit_byte: *next_output_byte++ = val; if (--free_in_buffer == 0) empty_output_buffer *)
 Definition put_byte (m : mgr) (x : Z) (w : world) (d : dest) : world * dest * option status :=
   let h1 := h_write (w_heap w) (d_next_base d) (d_next_off d) x in
-  let fr := (d_free d - 1) mod SIZE_T_MOD in
+  let fr := sub_size_t (d_free d) 1 in
   let d1 := mkD (d_buffer d) (d_bufsize d) (d_newbuffer d) (d_alloc d) (d_next_base d) (d_next_off d + 1) fr in
   if fr =? 0 then empty_output_buffer m (set_heap h1 w) d1 else (set_heap h1 w, d1, None).
 
@@ -301,7 +313,7 @@ Definition put_chunk (m : mgr) (xs : list Z) (w : world) (d : dest) : world * de
     let n := Z.of_nat (length xs) in
     let h1 := h_write_list (w_heap w) (d_next_base d) (d_next_off d) xs in
     (set_heap h1 w,
-     mkD (d_buffer d) (d_bufsize d) (d_newbuffer d) (d_alloc d) (d_next_base d) (d_next_off d + n) ((d_free d - n) mod SIZE_T_MOD),
+     mkD (d_buffer d) (d_bufsize d) (d_newbuffer d) (d_alloc d) (d_next_base d) (d_next_off d + n) (sub_size_t (d_free d) n),
      None).
 
 Definition run_op (m : mgr) (o : pop) (w : world) (d : dest) : world * dest * option status :=
@@ -331,33 +343,32 @@ Definition contents (h : heap) (a n : Z) : list Z :=
   | None => []
   end.
 
-Definition hand_over (w : world) : world :=
-  set_heap (h_upd (w_buf w) (fun b => match b_owner b with Lib => set_handed b | Caller => b end) (w_heap w)) w.
+Definition hand_block (b : block) : block := match b_owner b with Lib => set_handed b | Caller => b end.
+Definition hand_over (w : world) : world := set_heap (h_upd (w_buf w) hand_block (w_heap w)) w.
+
+Definition st_ok (st : status) : bool := match st with StOk => true | _ => false end.
 
 (* one compression: tj3Compress*/tj3Transform (TJ) or jpeg_mem_dest + jpeg_finish_compress (IJG).
    success: jpeg_finish_compress calls term_destination;
    error:   the TurboJPEG bailout calls term_destination only when alloc is set
             (turbojpeg-mp.c: if (cinfo->global_state > CSTATE_START && alloc) term_destination) *)
-Definition run_call (c : cfg) (alloc : bool) (ops : list pop) (w : world) : world :=
+Definition run_call_st (c : cfg) (alloc : bool) (ops : list pop) (w : world) : world * status :=
   let w0 := set_cur (w_buf w) w in
   match mem_dest c alloc w0 with
-  | (w1, Some st) => set_reusable false (wlog (LResult st (id_at (w_heap w1) (w_buf w1)) (w_size w1) []) w1)
+  | (w1, Some st) => (set_reusable false (wlog (LResult st (id_at (w_heap w1) (w_buf w1)) (w_size w1) []) w1), st)
   | (w1, None) =>
     match w_dest w1 with
-    | None => w1      (* impossible: mem_dest always installs the object *)
+    | None => (w1, StFuel)      (* impossible: mem_dest always installs the object *)
     | Some d1 =>
       let '(w2, d2, st) := run_ops (cf_mgr c) ops w1 d1 in
       let w3 := set_dest d2 w2 in
-      let w4 := match st with
-                | StOk => term_destination w3 d2
-                | _ => if d_alloc d2 then term_destination w3 d2 else w3
-                end in
+      let w4 := if st_ok st || d_alloc d2 then term_destination w3 d2 else w3 in
       let w5 := hand_over w4 in
-      let data := match st with StOk => contents (w_heap w5) (w_buf w5) (w_size w5) | _ => [] end in
-      set_reusable (match st with StOk => true | _ => false end)
-        (wlog (LResult st (id_at (w_heap w5) (w_buf w5)) (w_size w5) data) w5)
+      let data := if st_ok st then contents (w_heap w5) (w_buf w5) (w_size w5) else [] in
+      (set_reusable (st_ok st) (wlog (LResult st (id_at (w_heap w5) (w_buf w5)) (w_size w5) data) w5), st)
     end
   end.
+Definition run_call (c : cfg) (alloc : bool) (ops : list pop) (w : world) : world := fst (run_call_st c alloc ops w).
 
 (* ---- the application around the calls *)
 Inductive hop :=
@@ -377,16 +388,20 @@ Fixpoint remove_nth {A} (k : nat) (l : list A) : list A :=
   | x :: t, S k' => x :: remove_nth k' t
   end.
 
-(* what the documentation allows the caller to pass *)
-Definition check_pass (c : cfg) (alloc : bool) (w : world) : world :=
-  if w_buf w =? 0 then w else
+(* what the documentation allows the caller to pass: NULL, or a live buffer whose size it
+   states correctly -- except that *jpegSize "is ignored" when the buffer is reused from the
+   previous call with reallocation enabled (TurboJPEG only) *)
+Definition pass_ok (c : cfg) (alloc : bool) (w : world) : bool :=
+  (w_buf w =? 0) ||
   match live (w_heap w) (w_buf w) with
-  | None => wlog (LCBad CBadPass) w
+  | None => false
   | Some b =>
       let ignored := match cf_mgr c with TJ => w_reusable w && alloc | IJG => false end in
-      if ignored || (w_size w <=? b_size b) then w else wlog (LCBad CBadSize) w
+      ignored || ((0 <=? w_size w) && (w_size w <=? b_size b))
   end.
 
+(* hazard 2: the library takes the buffer for a reused one although *jpegSize = 0 sends it
+   down the allocation branch *)
 Definition zero_reuse (c : cfg) (alloc : bool) (w : world) : bool :=
   match cf_mgr c, w_dest w with
   | TJ, Some d => (d_buffer d =? w_buf w) && negb (w_buf w =? 0) && alloc && (w_size w =? 0)
@@ -396,25 +411,30 @@ Definition zero_reuse (c : cfg) (alloc : bool) (w : world) : bool :=
 Definition run_hop (c : cfg) (o : hop) (w : world) : world :=
   match o with
   | HAlloc n rc =>
-      let '(h1, a) := h_malloc (w_heap w) n Caller rc in
-      set_reusable false (set_out a n (set_heap h1 w))
+      let w1 := flag_if (n <? 0) NCallerSize (flag_if (rc && can_recycle (w_heap w)) NRecycled w) in
+      let '(h1, a) := h_malloc (w_heap w1) n Caller rc in
+      set_reusable false (set_out a n (set_heap h1 w1))
   | HSetSize z => set_out (w_buf w) z w
   | HSetNull => set_reusable false (set_out 0 (w_size w) w)
   | HSave => set_held (w_buf w :: w_held w) w
   | HTake k =>
       match nth_error (w_held w) k with
       | Some a => set_reusable false (set_out a (w_size w) (set_held (remove_nth k (w_held w)) w))
-      | None => wlog (LCBad CBadIndex) w
+      | None => flag NCallerIndex w
       end
-  | HFreeBuf => set_reusable false (set_out 0 (w_size w) (set_heap (h_free_caller (w_heap w) (w_buf w)) w))
+  | HFreeBuf =>
+      let w1 := flag_if (negb (caller_may_free (w_heap w) (w_buf w))) NCallerFree w in
+      set_reusable false (set_out 0 (w_size w1) (set_heap (h_free_caller (w_heap w1) (w_buf w1)) w1))
   | HFreeHeld k =>
       match nth_error (w_held w) k with
-      | Some a => set_held (remove_nth k (w_held w)) (set_heap (h_free_caller (w_heap w) a) w)
-      | None => wlog (LCBad CBadIndex) w
+      | Some a =>
+          let w1 := flag_if (negb (caller_may_free (w_heap w) a)) NCallerFree w in
+          set_held (remove_nth k (w_held w1)) (set_heap (h_free_caller (w_heap w1) a) w1)
+      | None => flag NCallerIndex w
       end
   | HCall alloc ops =>
-      let w1 := check_pass c alloc w in
-      let w2 := if zero_reuse c alloc w1 then wlog (LHaz HzZeroReuse) w1 else w1 in
+      let w1 := flag_if (negb (pass_ok c alloc w)) NCallerPass w in
+      let w2 := flag_if (zero_reuse c alloc w1) NZeroReuse w1 in
       run_call c alloc ops w2
   end.
 
@@ -423,11 +443,7 @@ Definition run (c : cfg) (hs : list hop) : world := run_hist c hs world0.
 
 (* ---- predicates on logs *)
 Definition is_bad (e : logent) : bool := match e with LBad _ => true | _ => false end.
-Definition is_cbad (e : logent) : bool := match e with LCBad _ => true | _ => false end.
-Definition is_haz (e : logent) : bool := match e with LHaz _ => true | _ => false end.
 Definition lib_clean (w : world) : bool := negb (existsb is_bad (h_log (w_heap w))).
-Definition caller_clean (w : world) : bool := negb (existsb is_cbad (h_log (w_heap w))).
-Definition hazard_free (w : world) : bool := negb (existsb is_haz (h_log (w_heap w))).
 
 (* live blocks that the library allocated and never handed over: leaks between calls *)
 Definition leaked (h : heap) : list block :=
@@ -436,6 +452,7 @@ Definition leaked (h : heap) : list block :=
 Definition chunk_ok (o : pop) : bool :=
   match o with PChunk xs => Z.of_nat (length xs) <? huff_local_bufsize | PAbort => true | PByte _ => true end.
 Definition no_abort (o : pop) : bool := match o with PAbort => false | _ => true end.
+Definition hop_chunks_ok (o : hop) : bool := match o with HCall _ ops => forallb chunk_ok ops | _ => true end.
 
 (* ---- worst-case size: turbojpeg.c tj3JPEGBufSize, jcicc.c jpeg_write_icc_profile *)
 Definition PAD (v p : Z) : Z := Z.land (v + p - 1) (Z.lnot (p - 1)).
